@@ -8,6 +8,7 @@
   copy_chain, sep_preserved_by_copy); (4) kernel-checked witnesses of the deviation regions.
 -/
 import OttoVerif.C17.Lemmas
+import OttoVerif.C17.GenFacts
 namespace OttoVerif.C17.Thm
 open OttoVerif.C17
 
@@ -528,6 +529,58 @@ example : checkGlobalProto hSmall rSmall = true := by decide
 example : (match cloneRuntime 1 hSmall 7 8 rSmall with
     | .ok c => c.roots.globalObject == 7 && c.roots.eval == 9 && c.next == 15 && c.out.length == 8
     | _ => false) = true := by decide
+
+/-! ### regenerated facts about the current sources (GenFacts.lean is rewritten from /repo by
+    `ottoh-C17 --facts` on every run): the model's `Node.map` replaces EVERY reference; these facts
+    tie that to clone.go / object_class.go / stash.go / type_arguments.go field by field. -/
+
+/-- fields holding a mutable reference that the clone path deliberately does not set from a cloner
+    call: `object.value` (decided per payload type, see `payload_cases_fresh`), `runtime.scope` and
+    `runtime.labels` (nil/empty in a runtime at rest – the copy starts at rest), `runtime.otto` (set by
+    `Otto.Copy`, otto.go:640) -/
+def notCloned : List (String × String) :=
+  [("object", "value"), ("runtime", "scope"), ("runtime", "labels"), ("runtime", "otto")]
+
+/-- payload types holding a reference that objectClone copies by value: primitive wrappers (`Value`
+    holding a primitive), `dateObject` (its `value` is a number), `ottoError` (its `trace` slice is
+    written only while the error is constructed), `result` (a completion record, never an object payload) -/
+def sharedPayloads : List String := ["Value", "dateObject", "ottoError", "result"]
+
+/-- **C17.clone_fields_fresh** — every field on the clone path whose type can hold a mutable reference
+    (pointer to object/runtime/stash/scope, `stasher`, map, slice, interface, or a struct containing
+    one) is assigned from a cloner call, `c.runtime`, or a freshly made container. A field copied by
+    reference makes this fail, naming the field. -/
+theorem clone_fields_fresh :
+    Gen.cloneFields.all (fun f => !f.2.2.2.2.1 || f.2.2.2.2.2 == "fresh" || notCloned.contains (f.2.1, f.2.2.1)) = true := by decide
+
+/-- the structs and fields are the ones the model transcribes (a new field shows up here) -/
+theorem clone_fields_expected : Gen.cloneFields.map (fun f => (f.2.1, f.2.2.1)) =
+    [("object", "value"), ("object", "runtime"), ("object", "objectClass"), ("object", "prototype"), ("object", "property"),
+     ("object", "class"), ("object", "propertyOrder"), ("object", "extensible"),
+     ("bindFunctionObject", "target"), ("bindFunctionObject", "this"), ("bindFunctionObject", "argumentList"),
+     ("nodeFunctionObject", "node"), ("nodeFunctionObject", "stash"),
+     ("argumentsObject", "stash"), ("argumentsObject", "indexOfParameterName"),
+     ("objectStash", "rt"), ("objectStash", "outr"), ("objectStash", "object"),
+     ("dclStash", "rt"), ("dclStash", "outr"), ("dclStash", "property"),
+     ("fnStash", "dclStash"), ("fnStash", "arguments"), ("fnStash", "indexOfArgumentName"),
+     ("property", "value"), ("property", "mode"),
+     ("dclProperty", "value"), ("dclProperty", "mutable"), ("dclProperty", "deletable"), ("dclProperty", "readable"),
+     ("Value", "value"), ("Value", "kind"),
+     ("runtime", "global"), ("runtime", "globalObject"), ("runtime", "globalStash"), ("runtime", "scope"), ("runtime", "otto"),
+     ("runtime", "eval"), ("runtime", "debugger"), ("runtime", "random"), ("runtime", "labels"), ("runtime", "stackLimit"),
+     ("runtime", "traceLimit"), ("runtime", "lck")] := by decide
+
+/-- **C17.payload_cases_fresh** — every payload type objectClone's switch handles either holds no
+    mutable reference (nativeFunctionObject: Go function values and strings) or is rebuilt from cloner calls -/
+theorem payload_cases_fresh : Gen.payloadCases.all (fun c => !c.2.1 || c.2.2) = true := by decide
+
+theorem payload_cases_expected : Gen.payloadCases.map (·.1) =
+    ["nativeFunctionObject", "bindFunctionObject", "nodeFunctionObject", "argumentsObject"] := by decide
+
+/-- **C17.payload_types_handled** — every struct type that the package ever asserts on a `.value`
+    and that can hold a mutable reference is one of the switch's cases or on the `sharedPayloads` list -/
+theorem payload_types_handled :
+    Gen.payloadTypes.all (fun t => !t.2 || (Gen.payloadCases.map (·.1)).contains t.1 || sharedPayloads.contains t.1) = true := by decide
 
 /-! ### kernel-checked witnesses of the deviation regions (each replayed on the real code by the harness) -/
 
